@@ -67,7 +67,7 @@ impl RK4 {
         x0: Float,
         y0: &[Float],
         xend: Float,
-        h: Float,
+        mut h: Float,
         mut solout: Option<&mut S>,
     ) -> Result<IntegrationResult, Error>
     where
@@ -149,6 +149,7 @@ impl RK4 {
             // Adjust last step so we land exactly on xend
             let mut last = false;
             if (x + 1.01 * h - xend) * h.signum() > 0.0 {
+                h = xend - x;
                 last = true;
             }
 
